@@ -274,6 +274,7 @@ struct vt_s {
 	uint64_t key[VT_SIZE];
 	uint8_t dl[VT_SIZE];
 	long states, transitions, traces, crashpoints, faults, reloads, epoch2;
+	uint64_t af_seen[1024];	/* post-fault images judged in the current checkpoint-bearing event */
 	long nscratch_steps;
 };
 static struct vt_s *VT;
@@ -638,6 +639,113 @@ evk(const struct ev_s *e)
 	return k[e->kind];
 }
 
+/* second epoch after an injected fault: the same daemon is given one more command (CANCEL by the owner, or a
+ * replacement by a small task, for each task queued) and then checkpoints undisturbed.  The command must be
+ * acknowledged, every live queue file must be one complete calendar, and a restart must show that user's
+ * current queue (what a failed checkpoint leaves behind must not leak into the next one).  Each distinct
+ * (spool image, queue) pair of a checkpoint-bearing event is judged once. */
+static void
+after_fault(const struct ev_s *e, const char *when)
+{
+	uint64_t h = 14695981039346656037ULL;
+	char shape[160], why[200];
+
+	for (int i = 0; i < HX_NFILES; i++) {
+		if (!hx_files[i].live) continue;
+		h = hx_hash(h, hx_files[i].name, strlen(hx_files[i].name) + 1);
+		h = hx_hash(h, hx_files[i].data, hx_files[i].len);
+	}
+	h = hx_hash(h, M.cur, sizeof(M.cur));
+	h = h ? h : 1;
+	for (int i = 0; i < 1024; i++) {
+		size_t q = (size_t)((h + (uint64_t)i) & 1023);
+		if (VT->af_seen[q] == h) return;
+		if (VT->af_seen[q] == 0) { VT->af_seen[q] = h; break; }
+	}
+	for (int k = 0; k < NUID; k++) {
+		if (!M.cur[k].present) continue;
+		for (int kind = 0; kind < 2; kind++) {
+			pid_t c;
+			int st;
+			fflush(stdout);
+			if ((c = fork()) == 0) {
+				struct hx_reply_s rp;
+				struct rs_task_s rs[HX_MAXTASKS];
+				struct rs_follow_s f;
+				static char req[8192];
+				const unsigned u = M.cur[k].owner;
+				struct ev_s ck = {E_CHKPT, 0, 0, 0};
+				struct mt_s want[NUID];
+				int n;
+				size_t o;
+				prctl(PR_SET_PDEATHSIG, SIGKILL);
+				memset(&f, 0, sizeof(f));
+				f.kind = kind, f.user = u;
+				snprintf(f.uid, sizeof(f.uid), "%s", uids[k]);
+				o = rs_mkreq(req, sizeof(req), &f);
+				hx_steps_armed = 0, hx_fail_at = -1, hx_step_hook = NULL;
+				hx_request(&rp, u, req, o);
+				snprintf(shape, sizeof(shape), "%s/%s/then-%s", evk(e), when, kind ? "replace-by-small" : "cancel");
+				VT->epoch2++;
+				if (rp.nsucc != 1 || rp.nfail != 0) {
+					report("epoch2-reply", shape, "%s: afterwards %s(%u,%s) gets %d success / %d failure replies", when, kind ? "ADD" : "CANCEL", u, uids[k], rp.nsucc, rp.nfail);
+					_exit(0);
+				}
+				do_ckpt_event(&ck, &rp);
+				for (int i = 0; i < HX_NFILES; i++) {
+					if (!hx_files[i].live || strncmp(hx_files[i].name, "echsq_", 6)) continue;
+					if (!hx_complete_ical(hx_files[i].data, hx_files[i].len)) {
+						report("torn-live", shape, "%s: after %s(%u,%s) and an undisturbed checkpoint the live file %s (%zu bytes) is not one complete calendar",
+						       when, kind ? "ADD" : "CANCEL", u, uids[k], hx_files[i].name, hx_files[i].len);
+						_exit(0);
+					}
+				}
+				memcpy(want, M.cur, sizeof(want));
+				if (kind == 0) {
+					want[k].present = 0;
+				}
+				VT->reloads++;
+				n = rs_reload(hx_files, rs);
+				if (n < 0) {
+					report("reload-died", shape, "%s: after %s(%u,%s) and an undisturbed checkpoint a restart dies loading the spool", when, kind ? "ADD" : "CANCEL", u, uids[k]);
+					_exit(0);
+				}
+				/* the commanding user's file is current: exactly its tasks, the replaced one armed for +50 */
+				for (int q = 0; q < NUID; q++) {
+					const struct rs_task_s *ob = NULL;
+					const int w = want[q].present && want[q].owner == u;
+					int contested = 0;
+					for (int j = 0; j < n; j++) if (!strcmp(rs[j].uid, uids[q]) && rs[j].owner == u) ob = &rs[j];
+					/* the failed checkpoint may have left ANOTHER user's file at its last completed state; if that
+					 * state holds the same UID the two files contradict each other at restart and the property
+					 * (per user: the last completed checkpoint) does not say who wins */
+					for (int ou = 0; ou < NU; ou++) {
+						contested |= users[ou] != u && M.ckpt[ou][q].present && M.ckpt[ou][q].owner == users[ou];
+					}
+					if (contested) continue;
+					if (w != (ob != NULL)) {
+						snprintf(why, sizeof(why), "%s of user %u %s after restart", uids[q], u, ob ? "is scheduled" : "is missing");
+						report("reload-set", shape, "%s: after %s(%u,%s) and an undisturbed checkpoint: %s", when, kind ? "ADD" : "CANCEL", u, uids[k], why);
+						_exit(0);
+					}
+					if (ob && ob->at != (q == k && kind == 1 ? HX_T0 + 50 : HX_T0 + tpls[want[q].tpl].first)) {
+						report("reload-set", shape, "%s: after %s(%u,%s) and an undisturbed checkpoint: %s of user %u armed for +%.0f after restart", when, kind ? "ADD" : "CANCEL", u, uids[k], uids[q], u, ob->at - HX_T0);
+						_exit(0);
+					}
+				}
+				fflush(stdout);
+				_exit(0);
+			}
+			while (waitpid(c, &st, 0) < 0 && errno == EINTR);
+			if (!(WIFEXITED(st) && WEXITSTATUS(st) == 0)) {
+				snprintf(shape, sizeof(shape), "%s/%s/then-%s", evk(e), when, kind ? "replace-by-small" : "cancel");
+				report("epoch2-died", shape, "%s: the daemon dies (status %#x) when it is afterwards given %s(%u,%s) and checkpoints", when, st, kind ? "ADD" : "CANCEL", M.cur[k].owner, uids[k]);
+				return;
+			}
+		}
+	}
+}
+
 /* the fault / crash enumeration inside one checkpoint-bearing event; runs in a forked image per variant */
 static void
 checkpoint_event(const struct ev_s *e)
@@ -652,6 +760,7 @@ checkpoint_event(const struct ev_s *e)
 	snprintf(hist + strlen(hist), sizeof(hist) - strlen(hist), "%s%s", hist[0] ? " " : "", name);
 	vd_desc("%s", hist);
 	model_ckpt_users(e, who);
+	memset(VT->af_seen, 0, sizeof(VT->af_seen));
 
 	/* (a) the undisturbed run, with a snapshot before every spool call and one at the end */
 	VT->nscratch_steps = -1;
@@ -754,6 +863,10 @@ checkpoint_event(const struct ev_s *e)
 				if (!pruned) {
 					/* the spool must still be one of {old, new} per user, never torn */
 					judge_image(hx_files, when, NULL, 0, evk(e));
+				}
+				if (!pruned && epoch2 && e->kind != E_SHUTDOWN) {
+					/* the daemon lives on: one more command, then an undisturbed checkpoint */
+					after_fault(e, when);
 				}
 				fflush(stdout);
 				_exit(0);
@@ -957,6 +1070,100 @@ explore(int depth)
 	}
 }
 
+/* ---------------- geometry: where the lines of one big task fall in the writer's buffer ---------------- */
+/* one user, one task of about 4.7 kB whose command line has length L; the final checkpoint is taken; the queue
+ * file must be one complete calendar of printable lines that holds every value that was sent, and a restart must
+ * schedule the task.  One case = 25 consecutive L. */
+static void
+geometry_block(int l0, int l1)
+{
+	static char req[16384], cmd[1100], pad[901];
+	char shape[64], fn[40];
+
+	if (!pad[0]) memset(pad, 'y', 900);
+	for (int L = l0; L <= l1 && !pruned; L++) {
+		pid_t c;
+		int st;
+		fflush(stdout);
+		if ((c = fork()) == 0) {
+			struct hx_reply_s rp;
+			struct rs_task_s rs[HX_MAXTASKS];
+			const struct hx_file_s *f = NULL;
+			size_t o;
+			int n;
+			prctl(PR_SET_PDEATHSIG, SIGKILL);
+			memset(cmd, 'c', (size_t)L);
+			cmd[L] = '\0';
+			o = (size_t)snprintf(req, sizeof(req), "BEGIN:VCALENDAR\nVERSION:2.0\nMETHOD:PUBLISH\nBEGIN:VEVENT\nUID:geo\nSUMMARY:%s\nDESCRIPTION:%s\n"
+					     "X-ECHS-IFILE:/i%s\nX-ECHS-OFILE:/o%s\nX-ECHS-EFILE:/e%s\nORGANIZER:mailto:boss@example.com\n"
+					     "ATTENDEE:mailto:one@example.com\nATTENDEE:mailto:two@example.com\nATTENDEE:mailto:three@example.com\nATTENDEE:mailto:four@example.com\n"
+					     "X-ECHS-MAIL-OUT:1\nDTSTART:20300101T000040Z\nEND:VEVENT\nEND:VCALENDAR\n", cmd, pad, pad, pad, pad);
+			snprintf(hist, sizeof(hist), "ADD(1000, one task of %zu bytes, command line of %d characters) SHUTDOWN", o, L);
+			vd_desc("%s", hist);
+			snprintf(shape, sizeof(shape), "geometry");
+			hx_request(&rp, 1000, req, o);
+			if (rp.nsucc != 1) {
+				report("reply", shape, "task refused");
+				_exit(3);
+			}
+			chkpnt();
+			snprintf(fn, sizeof(fn), "echsq_1000.ics");
+			for (int i = 0; i < HX_NFILES; i++) if (hx_files[i].live && !strcmp(hx_files[i].name, fn)) f = &hx_files[i];
+			if (f == NULL) {
+				report("queue-file", shape, "no queue file after the final checkpoint");
+				_exit(3);
+			}
+			if (!hx_complete_ical(f->data, f->len)) {
+				report("torn-live", shape, "the queue file (%zu bytes) is not one complete calendar", f->len);
+				_exit(3);
+			}
+			for (size_t i = 0; i < f->len; i++) {
+				const unsigned char ch = (unsigned char)f->data[i];
+				if (ch != '\n' && ch != '\r' && ch != '\t' && (ch < 0x20 || ch == 0x7f)) {
+					report("queue-file", shape, "the queue file holds a byte %#x at offset %zu (of %zu)", ch, i, f->len);
+					_exit(3);
+				}
+			}
+			{
+				static const char *const must[] = {"one@example.com", "two@example.com", "three@example.com", "four@example.com", "boss@example.com", "/iyyyy", "/oyyyy", "/eyyyy"};
+				for (size_t q = 0; q < sizeof(must) / sizeof(*must); q++) {
+					int found = 0;
+					const size_t ml = strlen(must[q]);
+					for (size_t i = 0; i + ml <= f->len && !found; i++) found = !memcmp(f->data + i, must[q], ml);
+					if (!found) {
+						report("queue-file", shape, "the queue file does not hold %s", must[q]);
+						_exit(3);
+					}
+				}
+				/* every line is within the reader's limit or the value is lost on reload */
+				for (size_t i = 0, b = 0; i <= f->len; i++) {
+					if (i == f->len || f->data[i] == '\n') {
+						if (i - b > 1023) {
+							report("queue-file", shape, "the queue file has a line of %zu bytes (the reader takes 1023)", i - b);
+							_exit(3);
+						}
+						b = i + 1;
+					}
+				}
+			}
+			VT->reloads++;
+			n = rs_reload(hx_files, rs);
+			if (n != 1 || strcmp(rs[0].uid, "geo") || rs[0].owner != 1000) {
+				report("reload-set", shape, "restart schedules %d tasks instead of the one that was queued", n);
+				_exit(3);
+			}
+			VT->traces++;
+			_exit(0);
+		}
+		while (waitpid(c, &st, 0) < 0 && errno == EINTR);
+		if (!WIFEXITED(st) || (WEXITSTATUS(st) != 0 && WEXITSTATUS(st) != 3)) {
+			vd_desc("ADD(1000, big task, command line of %d characters) SHUTDOWN", L);
+			vd_viol("crash/geometry", "daemon image died (status %#x)", st);
+		}
+		VT->transitions++;
+	}
+}
+
 /* ---------------- the 17-user configuration ---------------- */
 static void
 many_users(int nusers, int cancel_last)
@@ -1058,6 +1265,22 @@ enumerate(void)
 	memset(&M, 0, sizeof(M));
 	hist[0] = '\0';
 
+	if (!strcmp(mode, "geometry")) {
+		const int lmax = (int)vd_opt_l("lmax", 1000);
+		for (int l0 = 1; l0 <= lmax; l0 += 25) {
+			if (!vd_next()) continue;
+			vd_shape("geometry");
+			memset(VT, 0, sizeof(*VT));
+			geometry_block(l0, l0 + 24 <= lmax ? l0 + 24 : lmax);
+			vd_count("states", 1 + VT->transitions);
+			vd_count("transitions", VT->transitions);
+			vd_count("traces", VT->traces);
+			vd_count("reloads", VT->reloads);
+			vd_nontrivial();
+			if (vd_want_sample()) vd_sample("one 4.7 kB task with a command line of %d..%d characters, final checkpoint, file inspected, restart", l0, l0 + 24);
+		}
+		return;
+	}
 	if (!strcmp(mode, "many")) {
 		for (int n = 15; n <= 18; n++) {
 			for (int cl = 0; cl < 2; cl++) {
